@@ -4,6 +4,7 @@ from .. import terms as tm, symex, extract
 from ..terms import Var, Const, And, Or, Not, Eq, Lt, Le, Ge, Gt, Ite, Implies, TRUE, FALSE
 from ..symex import Vec, Struct, Opt, SymArr, Arr
 from ..e2 import *
+from ..symex import UNIT as UNIT_
 from . import faces
 
 CC = "voronoi/convex_cell.rs"
@@ -49,35 +50,79 @@ def from_dual_obligations(prefix):
 
 
 def normalisation_obligations(prefix):
-    """After the prefix of build_internal / VoronoiIntegrator::build the unused components of anchor and width are (-0.5, 1)
-    whatever was passed in, and the used ones are untouched."""
+    """What reaches SimulationBoundary::cuboid (and with it every cell) on both build routes: the unused components of anchor
+    and width are (-0.5, 1) whatever was passed in, the used ones are untouched.  The function bodies are run from their first
+    statement up to the call that consumes the box (tolerant mode: statements outside the subset are skipped and everything they
+    may write is havoc'd), so the contract does not depend on how the normalisation is written."""
     obs, units = [], []
-    for path, tag in (("Voronoi::build_internal", "direct"), ("VoronoiIntegrator::build", "integrator")):
+    routes = (("Voronoi::build_internal", "direct", ("Voronoi::build_voronoi_cells",), (3, 4)),
+              ("VoronoiIntegrator::build", "integrator", ("SimulationBoundary::cuboid",), (0, 1)))
+    for path, tag, stops, (ia, iw) in routes:
         u = Unit("voronoi.rs", path)
-        stmts = u.fn["body"]["stmts"]
-        pre = []
-        for s_ in stmts:
-            e = s_.get("e") if s_.get("k") in ("expr", "semi", None) else None
-            if e is not None and e.get("k") == "if" and e["c"].get("k") == "letcond":
-                pre.append(s_)
-            else:
-                break
-        if len(pre) != 2: raise extract.Undecided("lost anchor: two `if let Dimensionality::..` statements at the head of %s (found %d)" % (path, len(pre)))
         A, W = vec("anchor"), vec("width")
         dim, dimc = dim_enum()
-        ctx = symex.Ctx(); ctx.resolver = u.resolver(XF)
-        v, env, ctx, it = symex.run_stmts(pre, {"anchor": A, "width": W, "dimensionality": dim}, ctx, u.auto_consts(XF), path.split("::")[0])
-        A2, W2 = env.vars["anchor"], env.vars["width"]
+        mask, _ = __import__("vlib.props.rules", fromlist=["x"]).sym_mask()
+        ins = {"generators": SymArr(lambda i: vec("gen_in")), "mask": mask, "anchor": A, "width": W, "dimensionality": dim, "periodic": boolean("periodic")}
+        name, args, env_at, ctx = run_until_call(u, ins, stops, extra_files=XF)
+        if len(args) <= max(ia, iw) or not isinstance(args[ia], Vec) or not isinstance(args[iw], Vec):
+            raise extract.Undecided("lost anchor: anchor / width arguments of %s in %s" % (name, path))
+        A2, W2 = args[ia], args[iw]
         act = [TRUE, Not(dim.is_("OneD")), dim.is_("ThreeD")]
         goal_unused = And(*[Implies(Not(act[a]), And(Eq(A2.c[a], Const(tm.Fraction(-1, 2), "Real")), Eq(W2.c[a], Const(1, "Real")))) for a in range(3)])
         goal_used = And(*[Implies(act[a], And(Eq(A2.c[a], A.c[a]), Eq(W2.c[a], W.c[a]))) for a in range(3)])
-        lab = u.label + " / normalisation prefix"
-        obs.append(Obligation("%s.normalise_%s.requires_satisfiable" % (prefix, tag), dimc + ctx.assume + ctx.ok, TRUE, lab, expect_sat=True))
-        obs.append(Obligation("%s.normalise_%s.unused_axes_become_unit_slab_whatever_was_passed" % (prefix, tag), dimc + ctx.assume + ctx.ok, goal_unused, lab))
-        obs.append(Obligation("%s.normalise_%s.active_axes_untouched" % (prefix, tag), dimc + ctx.assume + ctx.ok, goal_used, lab))
-        # the normalised values are what reaches cuboid / the neighbour iterators: no later assignment to anchor / width
-        later = extract.find_nodes({"k": "x", "s": stmts[2:]}, lambda n: n.get("k") in ("assign", "opassign") and
-                                   extract.text_of(u.tree, n).lstrip().startswith(("anchor", "width")))
-        obs.append(Obligation("%s.normalise_%s.no_later_assignment_to_anchor_or_width" % (prefix, tag), [], Const(len(later) == 0), lab, note="syntactic"))
-        units.append({"fn": lab, "slice_sha": extract.sha("".join(extract.text_of(u.tree, s_) for s_ in pre))})
+        lab = u.label + " / from entry to the call of " + name
+        P = dimc + ctx.assume + ctx.ok + [env_at.pc]
+        for nm, goal, es in (("requires_satisfiable", TRUE, True), ("unused_axes_become_unit_slab_whatever_was_passed", goal_unused, False),
+                             ("active_axes_untouched", goal_used, False)):
+            o = Obligation("%s.normalise_%s.%s" % (prefix, tag, nm), P, goal, lab, expect_sat=es)
+            if not es: o.replay = replay_normalisation
+            obs.append(o)
+        # the box that reaches the cells is a function of the inputs only if nothing havoc'd flows into it
+        for o in obs[-3:]: o.havoc = has_havoc(A2.c + W2.c)
+        units.append({"fn": lab, "slice_sha": u.sha})
+    # the direct route hands the normalised box on unchanged: build_voronoi_cells(.., anchor, width, ..) -> cuboid(anchor, width, ..)
+    u = Unit("voronoi.rs", "Voronoi::build_voronoi_cells")
+    A, W = vec("anchor"), vec("width")
+    dim, dimc = dim_enum()
+    mask, _ = __import__("vlib.props.rules", fromlist=["x"]).sym_mask()
+    ins = {"generators": SymArr(lambda i: vec("gen_in")), "faces": SymArr(lambda i: UNIT_), "mask": mask, "anchor": A, "width": W, "dimensionality": dim,
+           "periodic": boolean("periodic")}
+    name, args, env_at, ctx = run_until_call(u, ins, ("SimulationBoundary::cuboid",), extra_files=XF)
+    ok = len(args) >= 2 and isinstance(args[0], Vec) and isinstance(args[1], Vec)
+    if not ok: raise extract.Undecided("lost anchor: cuboid(anchor, width, ..) in build_voronoi_cells")
+    o = Obligation("%s.normalise_direct.box_passed_on_unchanged_to_cuboid" % prefix, dimc + ctx.assume + ctx.ok + [env_at.pc],
+                   And(veq(args[0], A), veq(args[1], W)), u.label + " / from entry to the call of SimulationBoundary::cuboid")
+    o.havoc = has_havoc(args[0].c + args[1].c)
+    obs.append(o)
+    units.append({"fn": u.label + " / from entry to the call of SimulationBoundary::cuboid", "slice_sha": u.sha})
     return obs, units
+
+
+def replay_normalisation(ob):
+    """Model (dimensionality, garbage anchor / width in the unused axes) -> a small tessellation through the public API on the route the
+    obligation is about; the property's sentence 'measures are lengths / areas (unit thickness)' is evaluated on the real output:
+    the cell volumes must sum to the measure of the box in the active subspace."""
+    from ..runner import replay_requests
+    m = ob.model or {}
+    def fl(k, d):
+        try: return float(tm.Fraction(str(m[k])))
+        except Exception: return d
+    route = "integrator" if "normalise_integrator" in ob.name else "direct"
+    runs = []
+    dims_ = [int(fl("dim", 0)) + 1] + [d for d in (1, 2) if d != int(fl("dim", 0)) + 1]
+    for d in dims_:
+        if d == 3: continue
+        anchor = [fl("anchor_%s" % a, 0.0) for a in "xyz"]
+        width = [abs(fl("width_%s" % a, 1.0)) or 1.0 for a in "xyz"]
+        for garbage in ((anchor, width), ([anchor[0], 0.3, -7.0], [width[0], 2.5, 3.0])):
+            an, wi = list(garbage[0]), list(garbage[1])
+            gens = [[an[0] + wi[0] * t, (an[1] + wi[1] * s) if d == 2 else 0.123, 9.0] for t, s in ((0.15, 0.2), (0.45, 0.7), (0.8, 0.4))]
+            req = {"op": "build", "gens": gens, "anchor": an, "width": wi, "dim": d, "route": route}
+            a = replay_requests([req])[0]
+            want = wi[0] * (wi[1] if d == 2 else 1.0)
+            got = sum(c["volume"] for c in a.get("cells", [])) if "cells" in a else None
+            bad = got is None or not (abs(got - want) <= 1e-9 * max(1.0, abs(want)))
+            runs.append({"request": req, "sum_of_cell_measures": got, "measure_of_box_in_active_subspace": want, "violates": bad, "panic": a.get("panic", False)})
+    hit = [r for r in runs if r["violates"]]
+    return {"reproduced": bool(hit), "runs": hit[:2] or runs[:1],
+            "what": "sum of cell measures of a %s-route tessellation vs the measure of the box in the active subspace" % route}
